@@ -248,6 +248,12 @@ def run(chk):
     from . import c01
 
     c01.coincidence_scenarios(chk, 18 if quick else 400, pid="C16", only="overflow")
+    # the same wrappers as the OT-SVG writer emits them: every kind of reuse transform x every fill kind as picosvg
+    # documents (a <use> with its transform, the gradient's residual wrapper composed with the inverse reuse transform),
+    # judged by the OT-SVG document oracle - "gradient geometry mapped through a transform yields the same colour"
+    from . import c02
+
+    c02.reuse_fill_grid(chk)
     chk.assumptions += [
         "fontTools COLR compile/decompile is the reference for what a field can hold",
         "dual-number lattice: eps stands for 1e-10 (below picosvg.almost_equal's 1e-9)",
